@@ -157,6 +157,34 @@ def exhaustive_cases(shard, nshards):
                         yield c2
 
 
+def triple_cases(shard, nshards):
+    """Thorough tier: every fault set of size 3 (each further fault placed on the PDU sequence of the run with the faults
+    so far) for sizes 0, 1 and 9 (two segments), limits 4, lock-step pacing; duplicates of the same set are skipped."""
+    idx = 0
+    for size, immediate, closure in itertools.product([0, 1, SEG + 1], [True, False], [False, True]):
+        cfg = base_cfg(immediate, closure, 3)
+        f = {"pat": b"\x11\x22\x33\x44\x55", "size": size}
+        seen = set()
+        seq0 = _pdu_sequence({"cfg": cfg, "file": f, "faults": [], "k": 3})
+        for f1 in [[kind, occ, a, arg] for kind, n in seq0 for occ in range(n) for a, arg in ACTIONS]:
+            idx += 1
+            if idx % nshards != shard:
+                continue
+            seq1 = _pdu_sequence({"cfg": cfg, "file": f, "faults": [f1], "k": 3})
+            for f2 in [[kind, occ, a, arg] for kind, n in seq1 for occ in range(n) for a, arg in ACTIONS]:
+                if (f2[0], f2[1]) == (f1[0], f1[1]):
+                    continue
+                seq2 = _pdu_sequence({"cfg": cfg, "file": f, "faults": [f1, f2], "k": 3})
+                for f3 in [[kind, occ, a, arg] for kind, n in seq2 for occ in range(n) for a, arg in ACTIONS]:
+                    if (f3[0], f3[1]) in ((f1[0], f1[1]), (f2[0], f2[1])):
+                        continue
+                    key = frozenset(map(tuple, (f1, f2, f3)))
+                    if key in seen:
+                        continue
+                    seen.add(key)
+                    yield {"cfg": cfg, "file": f, "faults": [f1, f2, f3], "k": 3}
+
+
 # ---------------------------------------------------------------- sampled part
 @st.composite
 def sampled_case(draw):
@@ -193,6 +221,11 @@ def shard(ctx):
     out.extra["exhaustive_cases"] = out.evaluations
     out.extra["exhaustive_part"] = "all fault sets |F| <= 2, sizes {0,1,8,9,17}, immediate/deferred, closure on/off, limits 3"
     out.exhaustive = False
+    if ctx["tier"] == "thorough":
+        n0 = out.evaluations
+        enum_search(out, ctx["known"], triple_cases(ctx["shard"], ctx["nshards"]), evaluate, stop_after=12)
+        out.extra["exhaustive_triple_fault_cases"] = out.evaluations - n0
+        out.extra["exhaustive_part"] += "; all fault sets |F| = 3 on distinct PDUs, sizes {0,1,9}, limits 4"
     hyp_search(out, ctx["known"], sampled_case(), evaluate, PARAMS[ctx["tier"]]["sampled"], ctx["seed"])
     sim.cleanup_sandbox()
     return out
